@@ -4,6 +4,7 @@ import BoboVerif.Lemmas.Tcp
 import BoboVerif.Props.C15
 import BoboVerif.Lemmas.TcpAccount
 import BoboVerif.Lemmas.TcpRun
+import BoboVerif.Lemmas.TcpLattice
 /-!
 C06 — Link failures lose nothing: backlog or full resync restores consistency.
 
@@ -669,5 +670,162 @@ example :
     let steps : List (Step Nat) := [.push ⟨[1], [], []⟩, .pass 1000 Msg.empty (fun _ => (0, 1000))]
     missingAfter 0 runState0 [] steps = [1] ∧ (runState runState0 steps).queue = [] ∧
     (runState runState0 steps).peers[0]? = some ("a", Peer.init false) := by decide
+
+/-! ---------------------------------------------------------------------------------------------
+## End to end for one sender / receiver pair: once the link is idle the receiver knows everything
+
+Lemmas/TcpLattice.lean: the outgoing-loop model with `Rec := Status` (Lemmas/Lattice.lean), for one run
+key, the sender's transport state `t`, one receiver `j`.  `meaning m` = the join of the statuses `m`
+carries; `Pair` adds to `t` the ghost `own` (join of everything the sender announced), the sender's
+knowledge `knowS`, the receiver's knowledge `knowJ`, `wire` (payloads whose send to `j` was reported
+successful and that `j` has not applied yet) and the accounting ghost `missing` (`missStep`).  Steps
+(`pstep`):
+
+  * `say m`         : `own ⊔= meaning m`, `knowS ⊔= meaning m`, `push m` (any message, not only one record);
+  * `learn d`       : `knowS ⊔= d` (knowledge from other peers);
+  * `pass now outcome` : `outIter` with the snapshot `⟨[],[],[knowS]⟩`; the payload handed to the network for
+                      `j` is appended to `wire` iff `(outcome j).1 = 0`;
+  * `deliver k` / `redeliver k` : `j` applies the `k`-th message of `wire` (any order), removing it / leaving it
+                      there (duplicate delivery);
+  * `incoming i flags` : the sender's listener (`incoming`, RESETs from any device included);
+  * `restartJ keep` : `j` loses its state, `knowJ := bot`, what is on the wire survives (`keep`) or is lost,
+                      and the sender handles `j`'s RESET (`incoming j FLAG_RESET`).
+
+Invariant `PInv` (`pinv_step`, `pinv_run`): `own ≤ knowS`, `Acct` (whole-run accounting), and
+`j` is in the resync period at every clock `≥ L`, or `own ≤ knowJ ⊔ ⨆ wire ⊔ ⨆ missing`.
+
+Hypotheses, beyond those of `accounting_every_run` (`hself`, `hlc`, monotone decision clocks `PMono`):
+
+  * `hepoch : period_resync ≤ L0` — the clock is an epoch clock (seconds since 1970), every reading is at
+    least `period_resync`.  NEEDED because of `restartJ`: the receiver's RESET sets `last_comms := 0`, and it
+    is the test `now - 0 ≥ period_resync` that makes the next message to `j` a RESYNC.  With a clock below
+    `period_resync` the sender goes on with SYNCs after the restart and what `j` had is never sent again:
+    counter-run at the end of the section.  (Without `restartJ` it could be replaced by `hlc`, as in
+    `accounting_every_run`: a RESET alone never takes `j` OUT of the resync period.)
+  * the send outcome is taken at face value: `wire` receives a payload iff the send was REPORTED successful.
+    A send that fails after the peer received the message only makes `j` know more (a `redeliver`).
+--------------------------------------------------------------------------------------------- -/
+section Pair
+open Bobo.Lattice
+
+/-- **`idle_pair_knows_everything`**: the pair starts with nothing announced (`own = bot`, nothing counted
+as missing; any queue, backlog, wire, `knowS`, `knowJ`).  After EVERY run — local changes, knowledge learnt
+from others, passes with any send outcomes (failures, timeouts, outages of any length), RESYNCs, deliveries
+in any order, duplicate deliveries, RESETs, restarts of the receiver that lose its state — whose decision
+clocks do not go backwards: if at the end `j` is not in the resync period at the clock `L`, its backlog is
+empty, the queue is empty and nothing is left on the wire, then the receiver knows everything the sender
+ever announced: `own ≤ knowJ`. -/
+theorem idle_pair_knows_everything (j : Nat) (P0 : Pair) (e0 : String × Peer Status) (L0 : Int)
+    (he0 : P0.t.peers[j]? = some e0) (hself : e0.1 ≠ P0.t.self) (hlc : 0 ≤ e0.2.lastComms)
+    (hown : P0.own = bot) (hmiss : P0.missing = []) (hepoch : P0.t.cfg.periodResync ≤ L0)
+    (steps : List PStep) (hmono : PMono L0 steps) (L : Int) (hL : pLastNow L0 steps ≤ L)
+    (e : String × Peer Status) (he : (prun j P0 steps).t.peers[j]? = some e)
+    (hidle : ¬ InResync (prun j P0 steps).t.cfg L e.2) (hstash : stashOf e.2 = ([], [], []))
+    (hqueue : (prun j P0 steps).t.queue = []) (hwire : (prun j P0 steps).wire = []) :
+    (prun j P0 steps).own ≤ (prun j P0 steps).knowJ := by
+  have hinv := pinv_mono hL (pinv_run j e0.1 steps P0 L0 hmono (pinv_init j P0 e0 L0 he0 hself hlc hown hmiss hepoch))
+  simp only [stashOf, Prod.mk.injEq] at hstash
+  exact (pinv_idle j e0.1 _ L hinv e he hidle hstash.1 hstash.2.1 hstash.2.2 hqueue hwire).2
+
+/-- the invariant itself after every such run: `own ≤ knowS`, the accounting disjunction, and
+"in the resync period from `L` on, or everything announced is known to `j`, on the wire, or missing". -/
+theorem pair_invariant_every_run (j : Nat) (P0 : Pair) (e0 : String × Peer Status) (L0 : Int)
+    (he0 : P0.t.peers[j]? = some e0) (hself : e0.1 ≠ P0.t.self) (hlc : 0 ≤ e0.2.lastComms)
+    (hown : P0.own = bot) (hmiss : P0.missing = []) (hepoch : P0.t.cfg.periodResync ≤ L0)
+    (steps : List PStep) (hmono : PMono L0 steps) (L : Int) (hL : pLastNow L0 steps ≤ L) :
+    (prun j P0 steps).own ≤ (prun j P0 steps).knowS ∧
+    ∃ p, (prun j P0 steps).t.peers[j]? = some (e0.1, p) ∧
+      ((∀ now', now' ≥ L → InResync (prun j P0 steps).t.cfg now' p) ∨
+       ((∀ x ∈ (prun j P0 steps).missing,
+           x ∈ p.stashC ++ p.stashH ++ p.stashU ∨ ∃ m ∈ (prun j P0 steps).t.queue, x ∈ recs m) ∧
+        (prun j P0 steps).own ≤
+          join (join (prun j P0 steps).knowJ (joinAll ((prun j P0 steps).wire.map meaning)))
+            (joinAll (prun j P0 steps).missing))) := by
+  have hinv := pinv_mono hL (pinv_run j e0.1 steps P0 L0 hmono (pinv_init j P0 e0 L0 he0 hself hlc hown hmiss hepoch))
+  obtain ⟨_, hS, ⟨p, hp, _, _, hd⟩, hflow⟩ := hinv
+  refine ⟨hS, p, hp, ?_⟩
+  rcases hflow with ⟨e', he', hA⟩ | hf
+  · rw [hp] at he'; cases he'
+    exact Or.inl hA
+  · rcases hd with hA | hB
+    · exact Or.inl hA
+    · exact Or.inr ⟨hB, hf⟩
+
+/-! ### non-vacuity: a failed SYNC, an outage, a failed and a delivered RESYNC, a restart of the receiver -/
+
+/-- "a" with peers b (index 1, the receiver) and c, both in contact; default periods. -/
+def pair0 : Pair :=
+  { t := ⟨"a", Periods.default, [],
+      [("a", Peer.init false), ("b", ⟨995, 995, 0, false, [], [], []⟩), ("c", ⟨995, 995, 0, false, [], [], []⟩)]⟩,
+    own := bot, knowS := bot, knowJ := bot, wire := [], missing := [] }
+
+def failB (clock : Int) : Nat → Nat × Int := fun i => if i = 1 then (1, clock) else (0, clock)
+
+def pairRun : List PStep :=
+  [ .say ⟨[], [], [active 1 1]⟩,
+    .pass 1000 (failB 1001),          -- SYNC to b fails: `active 1 1` goes to b's backlog; c pops the queue
+    .say ⟨[], [halted], []⟩,
+    .pass 1100 (failB 1101),          -- outage: b (and c) in the resync period; RESYNC to b fails, backlog dropped
+    .pass 1111 (fun _ => (0, 1112)),  -- RESYNC to b delivered (snapshot = halted); c's SYNC pops the queue
+    .deliver 0,
+    .learn completed,
+    .restartJ false,                  -- b loses everything and sends a RESET
+    .pass 1200 (fun _ => (0, 1201)),  -- RESYNC again (snapshot = completed)
+    .redeliver 0,
+    .deliver 0 ]
+
+example :
+    PMono 999 pairRun ∧ pLastNow 999 pairRun = 1200 ∧ pair0.t.cfg.periodResync ≤ 999 ∧
+    -- after the failed SYNC: in b's backlog, counted as missing
+    (prun 1 pair0 (pairRun.take 2)).t.peers[1]? = some ("b", ⟨995, 1001, 0, false, [], [], [active 1 1]⟩) ∧
+    (prun 1 pair0 (pairRun.take 2)).missing = [active 1 1] ∧ (prun 1 pair0 (pairRun.take 2)).t.queue = [] ∧
+    -- after the failed RESYNC: backlog dropped, the second change still queued, b knows nothing
+    (prun 1 pair0 (pairRun.take 4)).t.peers[1]? = some ("b", ⟨995, 1101, 0, false, [], [], []⟩) ∧
+    (prun 1 pair0 (pairRun.take 4)).missing = [active 1 1, halted] ∧
+    (prun 1 pair0 (pairRun.take 4)).t.queue = [⟨[], [halted], []⟩] ∧
+    (prun 1 pair0 (pairRun.take 4)).knowJ = bot ∧ (prun 1 pair0 (pairRun.take 4)).wire = [] ∧
+    -- after the delivered RESYNC
+    (prun 1 pair0 (pairRun.take 5)).wire = [⟨[], [], [halted]⟩] ∧ (prun 1 pair0 (pairRun.take 5)).missing = [] ∧
+    (prun 1 pair0 (pairRun.take 5)).t.queue = [] ∧
+    (prun 1 pair0 (pairRun.take 6)).knowJ = halted ∧
+    -- the restart
+    (prun 1 pair0 (pairRun.take 8)).knowJ = bot ∧
+    (prun 1 pair0 (pairRun.take 8)).t.peers[1]? = some ("b", ⟨0, 0, 1, false, [], [], []⟩) ∧
+    (prun 1 pair0 (pairRun.take 9)).wire = [⟨[], [], [completed]⟩] ∧
+    -- the end: idle, `own = halted`, and b knows it (and more)
+    (prun 1 pair0 pairRun).t.peers[1]? = some ("b", ⟨1201, 1201, 1, false, [], [], []⟩) ∧
+    (prun 1 pair0 pairRun).t.queue = [] ∧ (prun 1 pair0 pairRun).wire = [] ∧ (prun 1 pair0 pairRun).missing = [] ∧
+    (prun 1 pair0 pairRun).own = halted ∧ (prun 1 pair0 pairRun).knowJ = completed := by decide
+
+/-- the hypotheses of `idle_pair_knows_everything` about the final state hold of this run. -/
+example : ¬ InResync (prun 1 pair0 pairRun).t.cfg 1200 (⟨1201, 1201, 1, false, [], [], []⟩ : Peer Status) ∧
+    stashOf (⟨1201, 1201, 1, false, [], [], []⟩ : Peer Status) = ([], [], []) := by
+  unfold InResync; decide
+
+/-- … and so does its conclusion, here through the theorem. -/
+example : (prun 1 pair0 pairRun).own ≤ (prun 1 pair0 pairRun).knowJ :=
+  idle_pair_knows_everything 1 pair0 ("b", ⟨995, 995, 0, false, [], [], []⟩) 999 (by decide) (by decide) (by decide)
+    rfl rfl (by decide) pairRun (by decide) 1200 (by decide) ("b", ⟨1201, 1201, 1, false, [], [], []⟩) (by decide)
+    (by unfold InResync; decide) rfl (by decide) (by decide)
+
+/-! ### `hepoch` is needed: a restart of the receiver under a clock below `period_resync` -/
+
+/-- clocks 10 and 20 (`period_resync = 60`).  The change is delivered to b; b restarts and sends its RESET:
+`last_comms = 0`, but `20 - 0 < 60`, so b is NOT in the resync period — the link is idle (queue, backlog and
+wire empty, the next pass sends nothing) and b does not know the change.  `hepoch` fails (`60 ≤ 0` is false);
+all the other hypotheses of `idle_pair_knows_everything` hold. -/
+example :
+    let P0 : Pair := { pair0 with t := { pair0.t with peers :=
+      [("a", Peer.init false), ("b", Peer.init false), ("c", Peer.init false)] } }
+    let steps : List PStep := [.say ⟨[], [], [halted]⟩, .pass 10 (fun _ => (0, 10)), .deliver 0, .restartJ true,
+      .pass 20 (fun _ => (0, 20))]
+    PMono 0 steps ∧ pLastNow 0 steps = 20 ∧ ¬ (P0.t.cfg.periodResync ≤ 0) ∧
+    (prun 1 P0 steps).t.peers[1]? = some ("b", ⟨0, 0, 1, false, [], [], []⟩) ∧
+    (20 : Int) - 0 < P0.t.cfg.periodResync ∧
+    (prun 1 P0 steps).t.queue = [] ∧ (prun 1 P0 steps).wire = [] ∧ (prun 1 P0 steps).missing = [] ∧
+    (prun 1 P0 steps).own = halted ∧ (prun 1 P0 steps).knowJ = bot ∧
+    ¬ ((prun 1 P0 steps).own ≤ (prun 1 P0 steps).knowJ) := by decide
+
+end Pair
 
 end Bobo.Tcp
